@@ -144,6 +144,8 @@ type result struct {
 	peer     peer.ID
 	www      []param
 	info     []param
+	rawWWW   string
+	rawInfo  string
 	panicked bool
 	how      string // which proof justified the acceptance
 	at       time.Time
@@ -153,7 +155,7 @@ type result struct {
 // no Authorization header at all. owner is the client identity index the minted material is
 // attributed to in the donor pool (-1 = unknown); it plays no role in the oracle.
 func (w *world) send(s *server, host string, sni string, authz *string, owner int) result {
-	req := &http.Request{Method: "POST", URL: &url.URL{Scheme: "http", Host: host, Path: "/"}, Proto: "HTTP/1.1", ProtoMajor: 1, ProtoMinor: 1,
+	req := &http.Request{Method: "POST", URL: &url.URL{Path: "/"}, Proto: "HTTP/1.1", ProtoMajor: 1, ProtoMinor: 1,
 		Header: http.Header{}, Host: host, Body: http.NoBody}
 	if authz != nil {
 		req.Header["Authorization"] = []string{*authz}
@@ -180,11 +182,11 @@ func (w *world) send(s *server, host string, sni string, authz *string, owner in
 	res.status = rec.Code
 	res.called, res.peer = s.called, s.peer
 	if h := rec.Header().Get("WWW-Authenticate"); h != "" {
-		res.www = parseParams(h)
+		res.www, res.rawWWW = parseParams(h), h
 		w.recordChallenge(s, host, res.www, now, authz, owner)
 	}
 	if h := rec.Header().Get("Authentication-Info"); h != "" {
-		res.info = parseParams(h)
+		res.info, res.rawInfo = parseParams(h), h
 	}
 	if res.called {
 		hdr := ""
